@@ -1042,4 +1042,327 @@ theorem pinv_run (workers : List Nat) (evs : List PEv) : PInv (prun codedOrder w
   | nil => intro s h; exact h
   | cons e l ih => intro s h; exact ih _ (pinv_step s e h)
 
+/-! ## Retry-After and the shutdown flush -/
+
+/-- where an accepted event can be: delivered, still pending, or in a batch that sleeps -/
+def RLoc (s : RSt) (e : Nat) : Prop :=
+  (∃ b ∈ s.delivered, e ∈ b.2) ∨ (∃ p ∈ s.pending, e ∈ p.2) ∨ (∃ b ∈ s.sleeping, e ∈ b.evs)
+
+/-- nothing dropped, no early retry; every sleeping batch waits exactly for the instant its
+destination accepts again; that instant is never more than `r` away -/
+structure RCore (c : RCfg) (s : RSt) : Prop where
+  dropped : s.dropped = []
+  early : s.early = 0
+  wake : ∀ b ∈ s.sleeping, AList.get s.acceptAt b.dest = some b.wake
+  near : ∀ d a, AList.get s.acceptAt d = some a → a - s.now ≤ c.r
+
+section retry
+variable (c : RCfg) (hr : 0 < c.r ∧ c.r < 60)
+include hr
+
+theorem firstAttempt_core (s : RSt) (d : Nat) (evs : List Nat) (h : RCore c s) :
+    RCore c (s.firstAttempt c d evs) ∧ (∀ e, RLoc s e → RLoc (s.firstAttempt c d evs) e) ∧
+    (∀ e ∈ evs, RLoc (s.firstAttempt c d evs) e) ∧ (s.firstAttempt c d evs).pending = s.pending ∧
+    (s.firstAttempt c d evs).now = s.now ∧ (s.firstAttempt c d evs).stopped = s.stopped ∧
+    (s.firstAttempt c d evs).acc = s.acc := by
+  have hdel : RCore c (s.deliver d evs) ∧ (∀ e, RLoc s e → RLoc (s.deliver d evs) e) ∧
+      (∀ e ∈ evs, RLoc (s.deliver d evs) e) := by
+    refine ⟨⟨h.dropped, h.early, h.wake, h.near⟩, ?_, ?_⟩
+    · intro e he
+      rcases he with ⟨b, hb, hx⟩ | he
+      · exact Or.inl ⟨b, List.mem_append_left _ hb, hx⟩
+      · exact Or.inr he
+    · intro e he
+      exact Or.inl ⟨(d, evs), by simp [RSt.deliver], he⟩
+  unfold RSt.firstAttempt
+  by_cases hl : (!c.lim.contains d) = true
+  · rw [if_pos hl]; exact ⟨hdel.1, hdel.2.1, hdel.2.2, rfl, rfl, rfl, rfl⟩
+  · rw [if_neg hl]
+    cases hg : AList.get s.acceptAt d with
+    | none =>
+      simp only []
+      unfold RSt.sleepOrDrop
+      have hra : 0 < s.now + c.r - s.now ∧ s.now + c.r - s.now < 60 := by omega
+      rw [if_pos hra]
+      refine ⟨⟨h.dropped, h.early, ?_, ?_⟩, ?_, ?_, rfl, rfl, rfl, rfl⟩
+      · intro b hb
+        show AList.get (AList.put s.acceptAt d (s.now + c.r)) b.dest = some b.wake
+        rw [AList.get_put]
+        rcases List.mem_append.mp hb with hb | hb
+        · have hw := h.wake b hb
+          have : d ≠ b.dest := by intro e; rw [← e, hg] at hw; cases hw
+          simp [this, hw]
+        · have : b = { dest := d, evs := evs, wake := s.now + c.r } := by simpa using hb
+          subst this; simp
+      · intro d' a ha
+        change AList.get (AList.put s.acceptAt d (s.now + c.r)) d' = some a at ha
+        rw [AList.get_put] at ha
+        by_cases hd : d = d'
+        · simp [hd] at ha; show a - s.now ≤ c.r; omega
+        · simp [hd] at ha; exact h.near d' a ha
+      · intro e he
+        rcases he with he | he | ⟨b, hb, hx⟩
+        · exact Or.inl he
+        · exact Or.inr (Or.inl he)
+        · exact Or.inr (Or.inr ⟨b, List.mem_append_left _ hb, hx⟩)
+      · intro e he
+        exact Or.inr (Or.inr ⟨{ dest := d, evs := evs, wake := s.now + c.r }, by simp, he⟩)
+    | some a =>
+      simp only []
+      by_cases ha : a ≤ s.now
+      · rw [if_pos ha]; exact ⟨hdel.1, hdel.2.1, hdel.2.2, rfl, rfl, rfl, rfl⟩
+      · rw [if_neg ha]
+        unfold RSt.sleepOrDrop
+        have hn := h.near d a hg
+        have hra : 0 < a - s.now ∧ a - s.now < 60 := by omega
+        rw [if_pos hra]
+        refine ⟨⟨h.dropped, h.early, ?_, h.near⟩, ?_, ?_, rfl, rfl, rfl, rfl⟩
+        · intro b hb
+          rcases List.mem_append.mp hb with hb | hb
+          · exact h.wake b hb
+          · have : b = { dest := d, evs := evs, wake := a } := by simpa using hb
+            subst this; exact hg
+        · intro e he
+          rcases he with he | he | ⟨b, hb, hx⟩
+          · exact Or.inl he
+          · exact Or.inr (Or.inl he)
+          · exact Or.inr (Or.inr ⟨b, List.mem_append_left _ hb, hx⟩)
+        · intro e he
+          exact Or.inr (Or.inr ⟨{ dest := d, evs := evs, wake := a }, by simp, he⟩)
+
+omit hr in
+/-- a retry whose sleep is over is accepted -/
+theorem retry_due (s : RSt) (b : RSleep) (hg : AList.get s.acceptAt b.dest = some b.wake) (hd : b.wake ≤ s.now) :
+    s.retry b = s.deliver b.dest b.evs := by
+  unfold RSt.retry; rw [hg]; simp [hd]
+
+omit hr in
+theorem retryAll_due (l : List RSleep) : ∀ (s : RSt), RCore c s →
+    (∀ b ∈ l, AList.get s.acceptAt b.dest = some b.wake ∧ b.wake ≤ s.now) →
+    RCore c (l.foldl RSt.retry s) ∧ (∀ e, RLoc s e → RLoc (l.foldl RSt.retry s) e) ∧
+    (∀ b ∈ l, ∀ e ∈ b.evs, RLoc (l.foldl RSt.retry s) e) ∧ (l.foldl RSt.retry s).pending = s.pending ∧
+    (l.foldl RSt.retry s).sleeping = s.sleeping ∧ (l.foldl RSt.retry s).now = s.now ∧
+    (l.foldl RSt.retry s).stopped = s.stopped ∧ (l.foldl RSt.retry s).acc = s.acc := by
+  induction l with
+  | nil => intro s h _; exact ⟨h, fun e he => he, by simp, rfl, rfl, rfl, rfl, rfl⟩
+  | cons b l ih =>
+    intro s h hl
+    have hb := hl b (by simp)
+    have e1 : s.retry b = s.deliver b.dest b.evs := retry_due s b hb.1 hb.2
+    have hc : RCore c (s.retry b) := by rw [e1]; exact ⟨h.dropped, h.early, h.wake, h.near⟩
+    obtain ⟨c2, m2, in2, p2, s2, n2, st2, a2⟩ := ih (s.retry b) hc (by
+      intro b' hb'; rw [e1]; exact hl b' (by simp [hb']))
+    have mono1 : ∀ e, RLoc s e → RLoc (s.retry b) e := by
+      intro e he; rw [e1]
+      rcases he with ⟨x, hx, hxe⟩ | he
+      · exact Or.inl ⟨x, List.mem_append_left _ hx, hxe⟩
+      · exact Or.inr he
+    simp only [List.foldl_cons]
+    refine ⟨c2, fun e he => m2 e (mono1 e he), ?_, p2.trans (by rw [e1]; rfl), s2.trans (by rw [e1]; rfl),
+      n2.trans (by rw [e1]; rfl), st2.trans (by rw [e1]; rfl), a2.trans (by rw [e1]; rfl)⟩
+    intro b' hb' e he
+    rcases List.mem_cons.mp hb' with rfl | hb'
+    · apply m2; rw [e1]; exact Or.inl ⟨(b'.dest, b'.evs), by simp [RSt.deliver], he⟩
+    · exact in2 b' hb' e he
+
+omit hr in
+theorem wakeDue_core (s : RSt) (h : RCore c s) :
+    RCore c s.wakeDue ∧ (∀ e, RLoc s e → RLoc s.wakeDue e) ∧ s.wakeDue.pending = s.pending ∧
+    s.wakeDue.sleeping = s.sleeping.filter (fun b => !decide (b.wake ≤ s.now)) ∧
+    s.wakeDue.now = s.now ∧ s.wakeDue.stopped = s.stopped ∧ s.wakeDue.acc = s.acc := by
+  unfold RSt.wakeDue
+  have h0 : RCore c { s with sleeping := s.sleeping.filter (fun b => !decide (b.wake ≤ s.now)) } :=
+    ⟨h.dropped, h.early, fun b hb => h.wake b (List.mem_filter.mp hb).1, h.near⟩
+  obtain ⟨c2, m2, in2, p2, s2, n2, st2, a2⟩ := retryAll_due c
+    (s.sleeping.filter (fun b => decide (b.wake ≤ s.now))) _ h0 (by
+      intro b hb
+      obtain ⟨hb1, hb2⟩ := List.mem_filter.mp hb
+      exact ⟨h.wake b hb1, by simpa using hb2⟩)
+  refine ⟨c2, ?_, p2, s2, n2, st2, a2⟩
+  intro e he
+  rcases he with he | he | ⟨b, hb, hx⟩
+  · exact m2 e (Or.inl he)
+  · exact m2 e (Or.inr (Or.inl he))
+  · by_cases hd : b.wake ≤ s.now
+    · exact in2 b (List.mem_filter.mpr ⟨hb, by simpa using hd⟩) e hx
+    · exact m2 e (Or.inr (Or.inr ⟨b, List.mem_filter.mpr ⟨hb, by simpa using hd⟩, hx⟩))
+
+theorem flushAll_core (l : List (Nat × List Nat)) : ∀ (s : RSt), RCore c s →
+    RCore c (l.foldl (fun s p => s.firstAttempt c p.1 p.2) s) ∧
+    (∀ e, RLoc s e → RLoc (l.foldl (fun s p => s.firstAttempt c p.1 p.2) s) e) ∧
+    (∀ p ∈ l, ∀ e ∈ p.2, RLoc (l.foldl (fun s p => s.firstAttempt c p.1 p.2) s) e) ∧
+    (l.foldl (fun s p => s.firstAttempt c p.1 p.2) s).pending = s.pending ∧
+    (l.foldl (fun s p => s.firstAttempt c p.1 p.2) s).now = s.now ∧
+    (l.foldl (fun s p => s.firstAttempt c p.1 p.2) s).stopped = s.stopped ∧
+    (l.foldl (fun s p => s.firstAttempt c p.1 p.2) s).acc = s.acc := by
+  induction l with
+  | nil => intro s h; exact ⟨h, fun e he => he, by simp, rfl, rfl, rfl, rfl⟩
+  | cons p l ih =>
+    intro s h
+    obtain ⟨c1, m1, in1, p1, n1, st1, a1⟩ := firstAttempt_core c hr s p.1 p.2 h
+    obtain ⟨c2, m2, in2, p2, n2, st2, a2⟩ := ih (s.firstAttempt c p.1 p.2) c1
+    simp only [List.foldl_cons]
+    refine ⟨c2, fun e he => m2 e (m1 e he), ?_, p2.trans p1, n2.trans n1, st2.trans st1, a2.trans a1⟩
+    intro q hq e he
+    rcases List.mem_cons.mp hq with rfl | hq
+    · exact m2 e (in1 e he)
+    · exact in2 q hq e he
+
+omit hr in
+theorem lastWake_ge (l : List RSleep) : ∀ (m : Int),
+    m ≤ l.foldl (fun (m : Int) (b : RSleep) => max m b.wake) m ∧
+    ∀ b ∈ l, b.wake ≤ l.foldl (fun (m : Int) (b : RSleep) => max m b.wake) m := by
+  induction l with
+  | nil => intro m; exact ⟨Int.le_refl _, by simp⟩
+  | cons a l ih =>
+    intro m
+    obtain ⟨h1, h2⟩ := ih (max m a.wake)
+    refine ⟨by simp only [List.foldl_cons]; omega, ?_⟩
+    intro b hb
+    simp only [List.foldl_cons]
+    rcases List.mem_cons.mp hb with rfl | hb
+    · omega
+    · exact h2 b hb
+
+/-- the invariant of the transmission with a rate-limited upstream (code as it is) -/
+structure RInv (c : RCfg) (s : RSt) : Prop where
+  core : RCore c s
+  nodup : AList.NoDupKeys s.pending
+  acc : ∀ e ∈ s.acc, RLoc s e
+  stopped : s.stopped = true → s.pending = [] ∧ s.sleeping = []
+
+theorem rstop_inv (s : RSt) (hw : c.stopWakes = false) (h : RInv c s) :
+    RInv c (s.stop c) ∧ (s.stop c).stopped = true := by
+  unfold RSt.stop
+  by_cases hs : s.stopped = true
+  · rw [if_pos hs]; exact ⟨h, hs⟩
+  · rw [if_neg hs, if_neg (by simp [hw])]
+    -- flush
+    have h0 : RCore c { s with stopped := true, pending := [] } :=
+      ⟨h.core.dropped, h.core.early, h.core.wake, h.core.near⟩
+    obtain ⟨c1, m1, in1, p1, n1, st1, a1⟩ := flushAll_core c hr
+      (s.pending.filter (fun p => !p.2.isEmpty)) _ h0
+    have hflush : ({ s with stopped := true } : RSt).flush c =
+        (s.pending.filter (fun p => !p.2.isEmpty)).foldl (fun s p => s.firstAttempt c p.1 p.2)
+          { s with stopped := true, pending := [] } := rfl
+    rw [hflush]
+    generalize hF : (s.pending.filter (fun p => !p.2.isEmpty)).foldl (fun s p => s.firstAttempt c p.1 p.2)
+          ({ s with stopped := true, pending := [] } : RSt) = F at *
+    have hlw := lastWake_ge F.sleeping F.now
+    have c2 : RCore c { F with now := F.lastWake } := by
+      refine ⟨c1.dropped, c1.early, c1.wake, ?_⟩
+      intro d a ha
+      have := c1.near d a ha
+      show a - F.lastWake ≤ c.r
+      unfold RSt.lastWake; omega
+    obtain ⟨c3, m3, p3, s3, n3, st3, a3⟩ := wakeDue_core c { F with now := F.lastWake } c2
+    have hsl : ({ F with now := F.lastWake } : RSt).wakeDue.sleeping = [] := by
+      rw [s3]
+      apply List.filter_eq_nil_iff.mpr
+      intro b hb
+      have : b.wake ≤ F.lastWake := hlw.2 b hb
+      simpa using this
+    have hpe : ({ F with now := F.lastWake } : RSt).wakeDue.pending = [] := by rw [p3]; exact p1
+    refine ⟨⟨c3, by rw [hpe]; exact AList.nodup_nil, ?_, fun _ => ⟨hpe, hsl⟩⟩, by rw [st3]; exact st1⟩
+    intro e he
+    rw [a3] at he
+    change e ∈ F.acc at he
+    rw [a1] at he
+    apply m3
+    have hloc := h.acc e he
+    rcases hloc with ⟨b, hb, hx⟩ | ⟨p, hp, hx⟩ | ⟨b, hb, hx⟩
+    · exact m1 e (Or.inl ⟨b, hb, hx⟩)
+    · have hne : (!p.2.isEmpty) = true := by
+        cases hpe' : p.2 with
+        | nil => rw [hpe'] at hx; cases hx
+        | cons a as => simp
+      exact in1 p (List.mem_filter.mpr ⟨hp, hne⟩) e hx
+    · exact m1 e (Or.inr (Or.inr ⟨b, hb, hx⟩))
+
+theorem rstep_inv (s : RSt) (o : ROp) (hw : c.stopWakes = false) (h : RInv c s) : RInv c (rstep c s o).1 := by
+  cases o with
+  | ev sid d =>
+    simp only [rstep]
+    by_cases hs : s.stopped = true
+    · rw [if_pos hs]
+      split
+      · exact h
+      · exact ⟨⟨h.core.dropped, h.core.early, h.core.wake, h.core.near⟩, h.nodup, h.acc, h.stopped⟩
+    · rw [if_neg hs]
+      -- events already pending for d are in the grown batch
+      have hold : ∀ e, RLoc s e → (∃ b ∈ s.delivered, e ∈ b.2) ∨ e ∈ s.grown d sid ∨
+          (∃ p ∈ s.pending, p.1 ≠ d ∧ e ∈ p.2) ∨ (∃ b ∈ s.sleeping, e ∈ b.evs) := by
+        intro e he
+        rcases he with he | ⟨p, hp, hx⟩ | he
+        · exact Or.inl he
+        · by_cases hd : p.1 = d
+          · right; left
+            obtain ⟨k, v⟩ := p
+            simp only at hd hx; subst hd
+            have := AList.get_of_mem h.nodup hp
+            unfold RSt.grown; rw [this]; simp [hx]
+          · exact Or.inr (Or.inr (Or.inl ⟨p, hp, hd, hx⟩))
+        · exact Or.inr (Or.inr (Or.inr he))
+      have hself : sid ∈ s.grown d sid := by unfold RSt.grown; simp
+      by_cases hm : c.mb ≤ (s.grown d sid).length
+      · rw [if_pos hm]
+        have h0 : RCore c { s with acc := s.acc ++ [sid], pending := AList.put s.pending d [] } :=
+          ⟨h.core.dropped, h.core.early, h.core.wake, h.core.near⟩
+        obtain ⟨c1, m1, in1, p1, n1, st1, a1⟩ := firstAttempt_core c hr _ d (s.grown d sid) h0
+        refine ⟨c1, by rw [p1]; exact AList.nodup_put _ h.nodup _ _, ?_, fun hst => ?_⟩
+        · intro e he
+          rw [a1] at he
+          change e ∈ s.acc ++ [sid] at he
+          rcases List.mem_append.mp he with he | he
+          · rcases hold e (h.acc e he) with hb | hg | ⟨p, hp, hd, hx⟩ | hb
+            · exact m1 e (Or.inl hb)
+            · exact in1 e hg
+            · exact m1 e (Or.inr (Or.inl ⟨p, (mem_put _ _ _ _).mpr (Or.inr ⟨hp, hd⟩), hx⟩))
+            · exact m1 e (Or.inr (Or.inr hb))
+          · have : e = sid := by simpa using he
+            subst this; exact in1 e hself
+        · rw [st1] at hst; exact absurd hst hs
+      · rw [if_neg hm]
+        refine ⟨⟨h.core.dropped, h.core.early, h.core.wake, h.core.near⟩, AList.nodup_put _ h.nodup _ _, ?_,
+          fun hst => absurd hst hs⟩
+        intro e he
+        change e ∈ s.acc ++ [sid] at he
+        have hput : ∀ x, x ∈ s.grown d sid → ∃ p ∈ AList.put s.pending d (s.grown d sid), x ∈ p.2 :=
+          fun x hx => ⟨(d, s.grown d sid), (mem_put _ _ _ _).mpr (Or.inl rfl), hx⟩
+        rcases List.mem_append.mp he with he | he
+        · rcases hold e (h.acc e he) with hb | hg | ⟨p, hp, hd, hx⟩ | hb
+          · exact Or.inl hb
+          · exact Or.inr (Or.inl (hput e hg))
+          · exact Or.inr (Or.inl ⟨p, (mem_put _ _ _ _).mpr (Or.inr ⟨hp, hd⟩), hx⟩)
+          · exact Or.inr (Or.inr hb)
+        · have : e = sid := by simpa using he
+          subst this; exact Or.inr (Or.inl (hput e hself))
+  | adv n =>
+    simp only [rstep]
+    have h0 : RCore c { s with now := s.now + n } := by
+      refine ⟨h.core.dropped, h.core.early, h.core.wake, ?_⟩
+      intro d a ha
+      have := h.core.near d a ha
+      show a - (s.now + n) ≤ c.r
+      omega
+    obtain ⟨c3, m3, p3, s3, n3, st3, a3⟩ := wakeDue_core c { s with now := s.now + n } h0
+    refine ⟨c3, by rw [p3]; exact h.nodup, ?_, ?_⟩
+    · intro e he; rw [a3] at he; exact m3 e (h.acc e he)
+    · intro hst
+      rw [st3] at hst
+      obtain ⟨hp, hsl⟩ := h.stopped hst
+      refine ⟨by rw [p3]; exact hp, ?_⟩
+      rw [s3]; change List.filter _ s.sleeping = []; rw [hsl]; rfl
+  | stop => exact (rstop_inv c hr s hw h).1
+
+theorem rrun_inv (ops : List ROp) (hw : c.stopWakes = false) : RInv c (rrun c ops) := by
+  unfold rrun
+  suffices ∀ s, RInv c s → RInv c (ops.foldl (fun s o => (rstep c s o).1) s) from
+    this _ ⟨⟨rfl, rfl, by simp, by simp⟩, AList.nodup_nil, by simp, by simp⟩
+  induction ops with
+  | nil => intro s h; exact h
+  | cons o l ih => intro s h; exact ih _ (rstep_inv c hr s o hw h)
+
+end retry
+
 end Refinery.Lemmas.Shutdown
